@@ -364,6 +364,8 @@ def _mk_date(real: Real, c: dict):
     if c['tm'] == 'hms':
         frac = Fraction(_num(c['fr']), 10 ** len(c['fr'])) if c['fr'] else Fraction(0)
         second = float(c['ss'] + frac)
+        if not c['fr'] and c['k'] == 'dtpy' and (c['hh'] + c['mi']) % 2 == 0:
+            second = int(c['ss'])   # whole seconds given as int (the natural python value; int is a float per PEP 484)
         kw = {'hour': c['hh'], 'minute': c['mi'], 'second': second}
     elif c['tm'] in ('eod', 'eodf'):
         kw = {'end_of_day': True}
